@@ -294,7 +294,7 @@ fn base_world() -> WorldCfg {
 	// zero-sized members (an owned collection without locks, at the address of
 	// a leaf) are part of every sequential world: the library's loops over a
 	// flattened lock list meet entries that are not locks
-	WorldCfg { p_zst_member: 10, ..WorldCfg::default() }
+	WorldCfg { p_zst_member: 10, p_own_member: 10, ..WorldCfg::default() }
 }
 
 pub fn seq_cfg_general() -> SeqCfg {
@@ -1502,6 +1502,7 @@ pub fn c07_random_eval(bytes: &[u8], want: bool) -> CaseReport {
 	wcfg.p_copy_permuted = 50;
 	// zero-sized members: an empty owned collection found at the address of a lock
 	wcfg.p_zst_member = 25;
+	wcfg.p_own_member = 20;
 	let opts = Opts::default();
 	let world = gen_world(&mut Src::new(bytes), &wcfg);
 	let steps = use_every_collection(&world);
@@ -2167,6 +2168,9 @@ pub fn seq_profile(prop: &str) -> Option<(SeqCfg, Opts)> {
 			// zero-sized members (empty owned collections at the address of a
 			// leaf) take part in the sort without being locks
 			cfg.world.p_zst_member = 30;
+			// mixed ownership: a lock stored inside the collection's own
+			// allocation next to references to locks elsewhere
+			cfg.world.p_own_member = 45;
 			cfg.w = StepW { phantom_hold: 0, phantom_release: 0, p_try: 20, p_read: 100, p_coll_target: 250, guard_ops: 1, ..StepW::default() };
 			let opts = Opts::default();
 			Some((cfg, opts))
